@@ -5,6 +5,7 @@ import Restful.Model.Route
 import Restful.Spec.Admits
 import Restful.Spec.Params
 import Restful.Spec.Classify
+import Restful.Spec.Order
 namespace Restful.Driver
 open SExp
 
@@ -94,6 +95,9 @@ def routeAnswer (id : String) (cfg : Config) (req : Req) (real : Real) : String 
   let specs := specLine "WF" wf ++ specLine "C01" (Spec.c01Holds implEnv cfg req real.outcome)
     ++ specLine "C04" (Spec.c04Holds implEnv cfg req real.outcome)
     ++ specLine "C02" (Spec.c02Holds implEnv cfg req real.outcome real.invocations)
+    ++ specLine "C03" (Spec.c03Holds implEnv cfg req real.outcome)
+    ++ specLine "C03routes2" (Spec.c03RoutesContested implEnv cfg req real.outcome)
+    ++ specLine "C03roots2" (Spec.c03RootsContested implEnv cfg req real.outcome)
     ++ specLine "noRootRegex" (Spec.noRootRegex cfg) ++ specLine "bodyCoherent" (Spec.bodyCoherent req)
     ++ specLine "mediaHygiene" (Spec.mediaHygiene cfg)
   s!"(out {id} {encOutcome o} (tag {tag}){specs})"
